@@ -42,6 +42,37 @@ pub fn spaces(tier: Tier) -> Vec<Space<'static>> {
         }
         acc.sample(|| json!({"a": format!("{:?}", d.vals[i]), "b": format!("{:?}", d.vals[(i * 7 + 3) % n])}));
     }));
+    // numbers of every representation and width class, the operands handed over both as the model's
+    // bytes and as the bytes jsonb's own Value encoder writes for the tree
+    {
+        let mut nums: Vec<RVal> = univ::num_variants(false);
+        for v in [128i64, 200, 255, 256, 32768, 40000, 65535, 65536, 2147483648, 3000000000, 4294967295, 4294967296] {
+            nums.push(RVal::Num(refmodel::RNum::I(v)));
+            nums.push(RVal::u(v as u64));
+            nums.push(RVal::f(v as f64));
+            nums.push(RVal::i(-v));
+        }
+        let mut docs: Vec<RVal> = vec![];
+        for n in &nums {
+            docs.push(n.clone());
+            docs.push(RVal::Arr(vec![n.clone(), RVal::s("x")]));
+            docs.push(RVal::obj(vec![("a", n.clone())]));
+        }
+        let forms: std::sync::Arc<Vec<(RVal, Vec<u8>, Vec<u8>)>> = std::sync::Arc::new(docs.into_iter().map(|d| { let own = guard(|| crate::conv::to_value(&d).to_vec()).unwrap_or_default(); let b = enc(&d); (d, b, own) }).collect());
+        sp.push(Space::new("numbers of every representation and width class, operands as model bytes and as Value-encoder bytes", forms.len() as u64, move |i, acc| {
+            let (a, ab, ao) = &forms[i as usize];
+            for (b, bb, bo) in forms.iter() {
+                let exp = ref_contains(a, b);
+                for (cfg, x, y) in [("model,encoder", &ab[..], &bo[..]), ("encoder,model", &ao[..], &bb[..]), ("encoder,encoder", &ao[..], &bo[..])] {
+                    acc.eval();
+                    match guard(|| jsonb::contains(x, y)) {
+                        Ok(o) if o == exp => {}
+                        other => acc.vio("contains:value-encoder-bytes:differs-from-rules", || json!({"cfg": cfg, "a": format!("{:?}", a), "b": format!("{:?}", b), "expected": exp, "observed": format!("{:?}", other.map_err(|p| panic_class(&p)))})),
+                    }
+                }
+            }
+        }));
+    }
     // text operands in the other spellings (all \\uXXXX, short escapes incl. \\/, CRLF/TAB between
     // tokens) for the special-character-key family, and texts that repeat a member name
     {
